@@ -1,11 +1,98 @@
-import PyresampleModel.Model.Core
+import PyresampleModel.Model.Grid
 
 /-
-  C20 — model (stub: not built yet).
+  C20 — conversions: CF axis → extent (`utils/cf.py`), rasterio transform/bounds → extent,
+  odc-geo GeoBox and cartopy argument wiring.
 -/
 namespace PyresampleModel.C20
 
+open Grid
+
+def absQ (q : Rat) : Rat := if 0 ≤ q then q else -q
+
+/-- `_load_cf_axis_info` on a stored coordinate vector: (first, last, nb, spacing, sign); `none` for a
+vector of length < 2 (division by zero in the code) or zero spacing -/
+structure Axis where
+  first   : Rat
+  last    : Rat
+  nb      : Nat
+  spacing : Rat
+  sign    : Rat
+deriving Repr, DecidableEq
+
+def axisInfo (v : List Rat) : Option Axis :=
+  match v.head?, v.getLast? with
+  | some f, some l =>
+    if v.length < 2 then none else
+    let delta := (l - f) / ((v.length : Rat) - 1)
+    if delta = 0 then none else
+    some { first := f, last := l, nb := v.length, spacing := absQ delta, sign := delta / absQ delta }
+  | _, _ => none
+
+/-- unit scaling applied by `create_area_def(units=…)` (e.g. km → m: factor 1000) and the geostationary
+radians → metres scaling by the satellite height: all axis quantities are multiplied -/
+def scaleAxis (k : Rat) (a : Axis) : Axis :=
+  { a with first := k * a.first, last := k * a.last, spacing := k * a.spacing }
+
+/-- `_get_area_extent_from_cf_axis` -/
+def cfExtent (x y : Axis) : Rat × Rat × Rat × Rat :=
+  (x.first - x.sign * (1/2) * x.spacing,
+   y.last + y.sign * (1/2) * y.spacing,
+   x.last + x.sign * (1/2) * x.spacing,
+   y.first - y.sign * (1/2) * y.spacing)
+
+/-- the coordinate vectors an area exports: pixel-centre x of every column, y of every row (row 0 first) -/
+def xvec (g : Grid) : List Rat := (List.range g.w).map (fun (c : Nat) => g.projX (c : Rat))
+def yvec (g : Grid) : List Rat := (List.range g.h).map (fun (r : Nat) => g.projY (r : Rat))
+
+/-- `load_cf_area` on the CF export of `g` (same units): the loaded grid -/
+def cfRoundTrip (xv yv : List Rat) : Option Grid :=
+  match axisInfo xv, axisInfo yv with
+  | some x, some y =>
+    let e := cfExtent x y
+    some { x0 := e.1, y0 := e.2.1, x1 := e.2.2.1, y1 := e.2.2.2, w := x.nb, h := y.nb }
+  | _, _ => none
+
+/-- the affine transform written for an area: (a, b, c, d, e, f) = (dx, 0, x0, 0, -dy, y1) -/
+def affineOf (g : Grid) : Rat × Rat × Rat × Rat × Rat × Rat := (g.dx, 0, g.x0, 0, -g.dy, g.y1)
+
+/-- rasterio's `dataset.bounds` from a transform and a shape: (left, bottom, right, top) -/
+def rasterBounds (t : Rat × Rat × Rat × Rat × Rat × Rat) (w h : Nat) : Rat × Rat × Rat × Rat :=
+  let (a, _, c, _, e, f) := t
+  (c, f + e * h, c + a * w, f)
+
+/-- `_get_area_def_from_rasterio`: extent = bounds -/
+def rasterRoundTrip (g : Grid) : Grid :=
+  let b := rasterBounds (affineOf g) g.w g.h
+  { x0 := b.1, y0 := b.2.1, x1 := b.2.2.1, y1 := b.2.2.2, w := g.w, h := g.h }
+
+/-- `to_cartopy_crs`: bounds = (x0, x1, y0, y1) -/
+def cartopyBounds (g : Grid) : Rat × Rat × Rat × Rat := (g.x0, g.x1, g.y0, g.y1)
+
+/-- `to_odc_geobox`: `GeoBox.from_bbox(bbox=extent, resolution=(dx, -dy), tight=True)` — the affine
+maps array corner (0, 0) to (left, top) and (w, h) to (right, bottom) -/
+def odcAffine (g : Grid) : Rat × Rat × Rat × Rat × Rat × Rat := (g.dx, 0, g.x0, 0, -g.dy, g.y1)
+
+/-! ### driver -/
+open Wire
+
 def handle : List String → Option String
+  | "cf" :: k :: rest => do
+    -- cf <unit-scale> <n> xvec… <m> yvec…   → loaded grid (extent scaled back by k)
+    let k ← rat? k
+    let (xv, tl) ← takeList rat? rest
+    let (yv, tl) ← takeList rat? tl
+    if tl ≠ [] then none else
+    match axisInfo xv, axisInfo yv with
+    | some x, some y =>
+      let e := cfExtent (scaleAxis k x) (scaleAxis k y)
+      some s!"{showRat e.1} {showRat e.2.1} {showRat e.2.2.1} {showRat e.2.2.2} {x.nb} {y.nb}"
+    | _, _ => some "err:axis"
+  | "raster" :: rest => do
+    let (g, tl) ← grid? rest
+    if tl ≠ [] then none else
+    let r := rasterRoundTrip g
+    some s!"{showRat r.x0} {showRat r.y0} {showRat r.x1} {showRat r.y1} {r.w} {r.h}"
   | _ => none
 
 end PyresampleModel.C20
